@@ -44,7 +44,17 @@ pub fn gen(r: &mut Rng) -> Value {
         }
         _ => {
             let (x, y, z) = (r.below(5), r.below(3), r.below(3));
-            json!({"kind": "text", "s": mk(r, x), "t": mk(r, y), "u": mk(r, z)})
+            let s = mk(r, x);
+            // the second text: unrelated, or a near miss of the first (same text, case of its ASCII letters flipped, one
+            // piece appended, a prefix) - comparisons must tell those apart
+            let t = match r.below(6) {
+                0 => s.clone(),
+                1 => s.chars().map(|c| if c.is_ascii_lowercase() { c.to_ascii_uppercase() } else { c.to_ascii_lowercase() }).collect(),
+                2 => format!("{}{}", s, r.pick(&PIECES)),
+                3 => s.chars().take(s.chars().count() / 2).collect(),
+                _ => mk(r, y),
+            };
+            json!({"kind": "text", "s": s, "t": t, "u": mk(r, z)})
         }
     }
 }
